@@ -136,7 +136,10 @@ def run(ctx):
         corp = harness.corpus_files()
         rng.shuffle(corp)
         corp = corp[:ctx.budget(40, 451)]
-        texts = [t for _, t in cases] + [t for _, t in corp]
+        # plus documents with the contract's special cases (a key given twice in a key-value block, a keyword given
+        # twice, repeated POINTS, CONFIG): positions of overwritten entries are where model and code can drift apart
+        extra = [docs.render(d, harness.random_layout(rng))[0] for d in harness.gen_documents(rng, ctx.budget(60, 600), contract=True)]
+        texts = [t for _, t in cases] + [t for _, t in corp] + extra
         mouts = harness.model_loads([(t, True, False) for t in texts])
         for t, m in zip(texts, mouts):
             a = harness.impl_loads(t, True, False)
@@ -169,6 +172,33 @@ def run(ctx):
             ctx.violation("position:" + pth.split("/")[-1], "recorded position differs from where the keyword was written: %s %s" % (pth, what),
                           {"text": text, "path": pth, "detail": what})
     ctx.count("position_documents", n_pos)
+    # key-value blocks: the values list holds the position of EVERY key and value token in source order, also when a
+    # key is written twice (or in another letter case / quoting)
+    for blk, host in (("METADATA", "MAP\n WEB\n"), ("VALIDATION", "MAP\n LAYER\n  TYPE POINT\n"), ("METADATA", "MAP\n"), ("CONNECTIONOPTIONS", "MAP\n LAYER\n  TYPE POINT\n")):
+        lines = host.split("\n")[:-1]
+        depth = len(lines)
+        ind = " " * depth
+        start = len(lines) + 1
+        pairs = [('"a"', '"1"'), ('"k"', '"v"'), ("'A'", "'2'"), ('"z"', '"3"'), ('a', '"4"')]
+        body = [ind + blk] + [ind + " %s %s" % kv for kv in pairs] + [ind + "END"]
+        opens = sum(1 for l in lines if len(l.split()) == 1)
+        text = "\n".join(lines + body + ["END"] * opens) + "\n"
+        want = []
+        for i, (k, v) in enumerate(pairs):
+            ln = start + 1 + i
+            want += [[ln, depth + 2], [ln, depth + 2 + len(k) + 1]]
+        ctx.note_case(text)
+        try:
+            d = sweep.fast_loads(text, True, False)
+            node = d
+            for key in [l.strip().lower() for l in lines[1:] if len(l.split()) == 1]:
+                node = node.get(key) if key in node else (node.get(docs.plural(key)) or [None])[0]
+            rec = node[blk.lower()]["__position__"]
+            got = [list(x) for x in rec.get("values", [])]
+            if got != want:
+                ctx.violation("position:kv-values", "%s with a repeated key: value positions recorded %r, written %r" % (blk, got, want), {"text": text})
+        except Exception as ex:
+            ctx.violation("position:kv-values", "%s with a repeated key: %s" % (blk, type(ex).__name__), {"text": text})
     # a keyword spelled like an entry of the position record itself (found by the universal provenance proof)
     for kw in ("LINE", "COLUMN"):
         text = "MAP\n  %s 5\nEND" % kw
